@@ -34,6 +34,8 @@ func TestCheck(t *testing.T) {
 		"base workload = 3 rerunners over 5 cells with cached children (depth 2, key shared by siblings), a conditional leaf, one planned RetrySentinelError, 6+ paced writes of both styles, one Stop half-way; a cell whose injection did not fire is retried with up to 2 more schedules. " +
 		"RANDOM: 1-4 rerunners x 1-5 cells (shared), random plans (direct leaves, conditional leaves, cached children depth<=2, concurrent children), <=3 planned retries and at most one fatal error per rerunner, 1-3 writer goroutines issuing invalidate/strobe/double-invalidate writes, Stops, at seeded moments, yield intensity 30-60%. " +
 		"STORM (high-contention leg for windows without a hook point): 4-12 rerunners, each reading cell 0 directly and through 0-10 concurrently evaluated cached children, equal minRerunInterval; a chain of 8-16 storm writes: readers that have picked the cell's current resource park at a harness gate in front of AddDependency, the write swaps the resource and calls Invalidate on the old one at the moment the gate opens (staggered wake-ups or a spin barrier, order varied); stat registrations_released_with_an_invalidate counts the overlapped registrations. " +
+		"STOP-WITHOUT-COMPUTATION leg: a rerunner whose first 4-9 runs return RetrySentinelError (no successful computation yet), 3-12 goroutines hammering the public RerunImmediately (every retry wakes at once; run goroutines contend with the callers between their context check and r.mu), Stop at a seeded moment of that phase, optionally a second ordinary rerunner and a write afterwards. " +
+		"About a quarter of the cells of random/matrix scenarios (and half of the storm scenarios) follow the fetch-then-register discipline instead: (version, resource) fetched as one pair, the fetched resource registered afterwards, writes always replace + Invalidate; random writers also call RerunImmediately. " +
 		"Oracles: (i) in-flight count 0 at every compute entry; (ii) no entry after Stop returned, in-flight 0 when Stop returns; (iii) after the last write, within <=50 runs per rerunner and at quiescence the last successful run of every live rerunner read exactly the current version of every cell it read and did not register any cell resource on which Invalidate was called (the property's own wording: invalidated dependency => re-run). " +
 		"Non-trivial = the injection fired (targeted) or at least one write landed while a compute function was running and >=2 successful runs happened (random); distinct = scenario shape + hook-visit trace hash.")
 	run.Assume("harness cells follow the documented discipline: readers AddDependency and then read the version; writers bump the version and then Invalidate (replacing the resource) or Strobe")
@@ -47,7 +49,8 @@ func TestCheck(t *testing.T) {
 	variants := run.N(2, 100)
 	nRandom := run.N(500, 120000)
 	nStorm := run.N(280, 12000)
-	total := M*variants + nRandom + nStorm
+	nNoComp := run.N(300, 20000)
+	total := M*variants + nRandom + nStorm + nNoComp
 	agg := vlib.NewHitAgg()
 	pf := reactx.Profile{}
 	opt := reactx.Options{}
@@ -129,6 +132,15 @@ func TestCheck(t *testing.T) {
 			return
 		}
 		j := i - M*variants
+		if j >= nRandom+nStorm {
+			j -= nRandom + nStorm
+			sc := reactx.GenNoComp(run.Rand("nocomp", j))
+			fmt.Printf("CASE %d stop-without-computation %d\n", i, j)
+			res := reactx.Run(sc, opt, agg)
+			run.Case(fmt.Sprintf("%s|%x", sc.Shape(), res.Trace), res.Stats["runs_retry"] > 0)
+			report(i, sc, res)
+			return
+		}
 		if j >= nRandom {
 			j -= nRandom
 			sc := reactx.GenStorm(run.Rand("storm", j))
